@@ -144,6 +144,21 @@ def run(ctx):
         es = rng.choice([None, 0, 1, 2, le, le + 1, -1])
         n = rng.choice([None, 0, 1, 2, 3, la, le, max(0, la - (s or 0)), max(0, le - (es or 0)), -1])
         run_case(ctx, W, np, a, e, na, ne, s, es, n, dtype, reqs)
+    # ---- values that are not digital states, in particular the SAME invalid value on both sides ----------------
+    for _ in range(150 if ctx.quick else 5000):
+        na = rng.randint(1, 3)
+        la = rng.randint(1, 5)
+        a = [[rng.randrange(8) for _ in range(na)] for _ in range(la)]
+        for _k in range(rng.randint(1, 2)):
+            a[rng.randrange(la)][rng.randrange(na)] = rng.choice([8, 9, 200, 255])
+        e = [list(r) for r in a]                      # a copy of itself: every compared position holds equal values
+        if rng.random() < 0.5:
+            i, j = rng.randrange(la), rng.randrange(na)
+            if e[i][j] < 8:
+                e[i][j] = rng.randrange(8)            # and possibly one ordinary difference elsewhere
+        s = rng.choice([None, None, 0, 1])
+        n = rng.choice([None, None, 1, la])
+        run_case(ctx, W, np, a, e, na, na, s, s, n, np.uint8, reqs)
     res = ctx.model([q for q, _ in reqs])
     if res is not None:
         for (q, want), got in zip(reqs, res):
